@@ -88,9 +88,431 @@ Ltac step_cases H :=
         try discriminate; inversion H; subst; clear H ]
   end.
 
+
+(* ---- preservation lemmas by shape of the step ---- *)
+
+(* a step of thread t that keeps its build-phase classification and touches
+   neither active/nb/nt nor the owner/done fields of any build *)
+Lemma sinv_frame : forall s s' t,
+  SInv s -> t < nt s ->
+  active s' = active s -> nb s' = nb s -> nt s' = nt s ->
+  watcher s' = watcher s -> wtid s' = wtid s ->
+  (forall b, b_owner (blds s' b) = b_owner (blds s b) /\ b_done (blds s' b) = b_done (blds s b)) ->
+  (forall t', t' <> t -> thr s' t' = thr s t') ->
+  t_kind (thr s' t) = t_kind (thr s t) ->
+  phase_of (t_pc (thr s' t)) = phase_of (t_pc (thr s t)) ->
+  done_of (t_pc (thr s' t)) = done_of (t_pc (thr s t)) ->
+  (forall b, ref_of (t_pc (thr s' t)) = Some b -> b < nb s) ->
+  pc_ok (t_kind (thr s t)) (t_pc (thr s' t)) = true ->
+  (watcher s = true -> wexited s' = false -> wexited s = false /\ (t = wtid s -> is_ret (t_pc (thr s' t)) = false)) ->
+  SInv s'.
+Proof.
+  intros s s' t I Ht Ea En Et Ew Ewt Eb Eo Ek Ep Ed Er Eok Ewl.
+  assert (Hthr : forall t', phase_of (t_pc (thr s' t')) = phase_of (t_pc (thr s t')) /\
+                            done_of (t_pc (thr s' t')) = done_of (t_pc (thr s t')) /\
+                            t_kind (thr s' t') = t_kind (thr s t')).
+  { intros t'. destruct (Nat.eq_dec t' t) as [->|N]; [auto | rewrite (Eo _ N); auto]. }
+  constructor; rewrite ?Ea, ?En, ?Et, ?Ew, ?Ewt.
+  - intros b H. apply (i_act_nb _ I b H).
+  - intros b H. destruct (Eb b) as [-> _]. destruct (Hthr (b_owner (blds s b))) as [-> _].
+    apply (i_act_owner _ I b H).
+  - intros b H. destruct (Eb b) as [_ ->]. apply (i_act_undone _ I b H).
+  - intros t0 b H0 H. destruct (Hthr t0) as [E1 _]. rewrite E1 in H.
+    destruct (Eb b) as [-> _]. apply (i_phase _ I t0 b H0 H).
+  - intros t0 b H0 H. destruct (Hthr t0) as [_ [E1 _]]. rewrite E1 in H.
+    destruct (Eb b) as [-> ->]. apply (i_donepc _ I t0 b H0 H).
+  - intros b H0 H. destruct (Eb b) as [E1 E2]. rewrite E1, E2 in *.
+    destruct (Hthr (b_owner (blds s b))) as [-> [-> _]]. apply (i_undone _ I b H0 H).
+  - intros t0 b H0 H. destruct (Nat.eq_dec t0 t) as [->|N].
+    + apply Er; assumption.
+    + rewrite (Eo _ N) in H. apply (i_refs _ I t0 b H0 H).
+  - intros t0 H0. destruct (Nat.eq_dec t0 t) as [->|N].
+    + rewrite Ek. assumption.
+    + rewrite (Eo _ N). apply (i_kind _ I t0 H0).
+  - intros H. destruct (Hthr (wtid s)) as [_ [_ ->]]. apply (i_watcher _ I H).
+  - intros H H1. destruct (Ewl H H1) as [H2 H3].
+    destruct (Nat.eq_dec (wtid s) t) as [E|N].
+    + rewrite E. apply H3. auto.
+    + rewrite (Eo _ N). apply (i_wlive _ I H H2).
+  - intros t0 H0 H. destruct (Hthr t0) as [_ [_ E1]]. rewrite E1 in H. apply (i_wuniq _ I t0 H0 H).
+Qed.
+
+Ltac inst I t b :=
+  pose proof (i_act_nb _ I b); pose proof (i_act_owner _ I b); pose proof (i_act_undone _ I b);
+  pose proof (i_phase _ I t b); pose proof (i_donepc _ I t b); pose proof (i_undone _ I b);
+  pose proof (i_refs _ I t b); pose proof (i_kind _ I t); pose proof (i_wuniq _ I t);
+  pose proof (i_watcher _ I); pose proof (i_wlive _ I).
+
+Lemma rb_kind_ok : forall k p p', pc_ok k p = true -> rb_pc p = true -> rb_pc p' = true -> pc_ok k p' = true.
+Proof.
+  intros k p p' H1 H2 H3. destruct k as [[]| |]; simpl in *; rewrite ?H3; simpl; auto;
+    destruct p; simpl in *; try discriminate.
+Qed.
+
+(* first critical section of rebuild(): a new build is allocated *)
+Lemma sinv_alloc : forall s t dsp,
+  SInv s -> t < nt s -> t_pc (thr s t) = PRbStart -> active s = None ->
+  SInv (set_pc (mkState dsp (Some (nb s)) (recent s) (watcher s) (wtid s) (stopFlag s) (wexited s)
+                        (edits s) (S (nb s)) (upd (blds s) (nb s) (mkBuild t false None false))
+                        (nt s) (thr s) (ncalls s)) t (PRbOnStart (nb s))).
+Proof.
+  intros s t dsp I Ht Hpc Ha.
+  constructor; upd_simpl.
+  - intros b H. inversion H; subst. reflexivity.
+  - intros b H. inversion H; subst. repeat (rewrite Nat.eqb_refl; simpl). auto.
+  - intros b H. inversion H; subst. rewrite Nat.eqb_refl. reflexivity.
+  - intros t0 b H0 H. destruct (Nat.eqb_spec t0 t) as [->|N]; simpl in H.
+    + inversion H; subst. rewrite Nat.eqb_refl. auto.
+    + destruct (i_phase _ I t0 b H0 H) as [E _]. congruence.
+  - intros t0 b H0 H. destruct (Nat.eqb_spec t0 t) as [->|N]; simpl in H; [discriminate|].
+    destruct (i_donepc _ I t0 b H0 H) as [E1 [E2 [E3 E4]]].
+    destruct (Nat.eqb_spec b (nb s)); [lia|]. repeat split; auto; try lia. intros E; inversion E; lia.
+  - intros b H0 H. destruct (Nat.eqb_spec b (nb s)) as [->|N]; simpl in *.
+    + repeat (rewrite Nat.eqb_refl; simpl). auto.
+    + assert (Hb : b < nb s) by lia.
+      destruct (i_undone _ I b Hb H) as [E1 E2]. split; auto.
+      destruct (Nat.eqb_spec (b_owner (blds s b)) t) as [E|N2]; auto.
+      rewrite E, Hpc in E2. simpl in E2. destruct E2; discriminate.
+  - intros t0 b H0 H. destruct (Nat.eqb_spec t0 t) as [->|N]; simpl in H.
+    + inversion H; subst. lia.
+    + pose proof (i_refs _ I t0 b H0 H). lia.
+  - intros t0 H0. destruct (Nat.eqb_spec t0 t) as [->|N]; simpl.
+    + pose proof (i_kind _ I t Ht) as K. rewrite Hpc in K. eapply rb_kind_ok; eauto.
+    + apply (i_kind _ I t0 H0).
+  - intros H. destruct (i_watcher _ I H) as [E1 E2]. split; auto.
+    destruct (Nat.eqb_spec (wtid s) t) as [E|N]; simpl; auto. rewrite <- E; auto.
+  - intros H H1. pose proof (i_wlive _ I H H1) as E.
+    destruct (Nat.eqb_spec (wtid s) t) as [E'|N]; simpl; auto.
+  - intros t0 H0 H. destruct (Nat.eqb_spec t0 t) as [->|N]; simpl in H; apply (i_wuniq _ I); auto.
+Qed.
+
+(* second critical section: activeBuild = nil *)
+Lemma sinv_publish : forall s t b,
+  SInv s -> t < nt s -> t_pc (thr s t) = PRbPublish b ->
+  SInv (set_pc (mkState (disposed s) None (Some b) (watcher s) (wtid s) (stopFlag s) (wexited s)
+                        (edits s) (nb s) (blds s) (nt s) (thr s) (ncalls s)) t (PRbDone b)).
+Proof.
+  intros s t b I Ht Hpc.
+  assert (Hph : phase_of (t_pc (thr s t)) = Some b) by (rewrite Hpc; reflexivity).
+  destruct (i_phase _ I t b Ht Hph) as [Ha Ho].
+  pose proof (i_act_nb _ I b Ha) as Hnb.
+  pose proof (i_act_undone _ I b Ha) as Hud.
+  constructor; upd_simpl; try (intros; discriminate).
+  - intros t0 b0 H0 H. destruct (Nat.eqb_spec t0 t) as [E|N]; simpl in H; [discriminate|].
+    destruct (i_phase _ I t0 b0 H0 H) as [E1 E2]. rewrite Ha in E1. inversion E1; subst. congruence.
+  - intros t0 b0 H0 H. destruct (Nat.eqb_spec t0 t) as [E|N]; simpl in H.
+    + inversion H; subst. repeat split; auto; try lia. discriminate.
+    + destruct (i_donepc _ I t0 b0 H0 H) as [E1 [E2 [E3 E4]]]. repeat split; auto. discriminate.
+  - intros b0 H0 H. destruct (i_undone _ I b0 H0 H) as [E1 E2]. split; auto.
+    destruct (Nat.eqb_spec (b_owner (blds s b0)) t) as [E|N]; simpl; auto.
+    rewrite E, Hpc in E2. simpl in E2. destruct E2 as [E2|E2]; [|discriminate]. inversion E2; subst. auto.
+  - intros t0 b0 H0 H. destruct (Nat.eqb_spec t0 t) as [E|N]; simpl in H.
+    + inversion H; subst. lia.
+    + apply (i_refs _ I t0 b0 H0 H).
+  - intros t0 H0. destruct (Nat.eqb_spec t0 t) as [E|N]; simpl.
+    + pose proof (i_kind _ I t Ht) as K. rewrite Hpc in K. eapply rb_kind_ok; eauto.
+    + apply (i_kind _ I t0 H0).
+  - intros H. destruct (i_watcher _ I H) as [E1 E2]. split; auto.
+    destruct (Nat.eqb_spec (wtid s) t) as [E|N]; simpl; auto. rewrite <- E; auto.
+  - intros H H1. pose proof (i_wlive _ I H H1) as E.
+    destruct (Nat.eqb_spec (wtid s) t) as [E'|N]; simpl; auto.
+  - intros t0 H0 H. destruct (Nat.eqb_spec t0 t) as [E|N]; simpl in H; apply (i_wuniq _ I); try rewrite E; auto.
+Qed.
+
+(* waitGroup.Done() and return *)
+Lemma sinv_done : forall s t b x p',
+  SInv s -> t < nt s -> t_pc (thr s t) = PRbDone b ->
+  b_owner x = b_owner (blds s b) -> b_done x = true ->
+  phase_of p' = None -> done_of p' = None -> ref_of p' = None ->
+  pc_ok (t_kind (thr s t)) p' = true ->
+  (t_kind (thr s t) = KWatcher -> is_ret p' = false) ->
+  SInv (set_pc (set_bld s b x) t p').
+Proof.
+  intros s t b x p' I Ht Hpc Hxo Hxd P1 P2 P3 Pk Pw.
+  assert (Hd : done_of (t_pc (thr s t)) = Some b) by (rewrite Hpc; reflexivity).
+  destruct (i_donepc _ I t b Ht Hd) as [Hb [Ho [Hud Hna]]].
+  constructor; upd_simpl.
+  - apply (i_act_nb _ I).
+  - intros b0 H. destruct (Nat.eqb_spec b0 b) as [E|N]; [subst; congruence|].
+    destruct (i_act_owner _ I b0 H) as [E1 E2]. split; auto.
+    destruct (Nat.eqb_spec (b_owner (blds s b0)) t) as [E|N2]; simpl; auto.
+    rewrite E, Hpc in E2. discriminate.
+  - intros b0 H. destruct (Nat.eqb_spec b0 b) as [E|N]; [subst; congruence|]. apply (i_act_undone _ I b0 H).
+  - intros t0 b0 H0 H. destruct (Nat.eqb_spec t0 t) as [E|N]; simpl in H; [congruence|].
+    destruct (i_phase _ I t0 b0 H0 H) as [E1 E2]. split; auto.
+    destruct (Nat.eqb_spec b0 b) as [E|N2]; [subst; congruence|auto].
+  - intros t0 b0 H0 H. destruct (Nat.eqb_spec t0 t) as [E|N]; simpl in H; [congruence|].
+    destruct (i_donepc _ I t0 b0 H0 H) as [E1 [E2 [E3 E4]]].
+    destruct (Nat.eqb_spec b0 b) as [E|N2]; [subst; congruence|auto].
+  - intros b0 H0 H. destruct (Nat.eqb_spec b0 b) as [E|N]; [subst; congruence|].
+    destruct (i_undone _ I b0 H0 H) as [E1 E2]. split; auto.
+    destruct (Nat.eqb_spec (b_owner (blds s b0)) t) as [E|N2]; simpl; auto.
+    rewrite E, Hpc in E2. simpl in E2. destruct E2 as [E2|E2]; [discriminate|]. inversion E2; subst. congruence.
+  - intros t0 b0 H0 H. destruct (Nat.eqb_spec t0 t) as [E|N]; simpl in H; [congruence|].
+    apply (i_refs _ I t0 b0 H0 H).
+  - intros t0 H0. destruct (Nat.eqb_spec t0 t) as [E|N]; simpl; [auto|apply (i_kind _ I t0 H0)].
+  - intros H. destruct (i_watcher _ I H) as [E1 E2]. split; auto.
+    destruct (Nat.eqb_spec (wtid s) t) as [E|N]; simpl; auto. rewrite <- E; auto.
+  - intros H H1. pose proof (i_wlive _ I H H1) as E.
+    destruct (Nat.eqb_spec (wtid s) t) as [E'|N]; simpl; auto.
+    apply Pw. rewrite <- E'. apply (i_watcher _ I H).
+  - intros t0 H0 H. destruct (Nat.eqb_spec t0 t) as [E|N]; simpl in H; apply (i_wuniq _ I); try rewrite E; auto.
+Qed.
+
+(* a new client call *)
+Lemma sinv_call : forall s o,
+  SInv s ->
+  SInv (mkState (disposed s) (active s) (recent s) (watcher s) (wtid s) (stopFlag s) (wexited s)
+                (edits s) (nb s) (blds s) (S (nt s))
+                (upd (thr s) (nt s) (mkThread (KClient o) (ncalls s) (start_pc o))) (S (ncalls s))).
+Proof.
+  intros s o I.
+  assert (P1 : phase_of (start_pc o) = None) by (destruct o; reflexivity).
+  assert (P2 : done_of (start_pc o) = None) by (destruct o; reflexivity).
+  assert (P3 : ref_of (start_pc o) = None) by (destruct o; reflexivity).
+  constructor; upd_simpl.
+  - apply (i_act_nb _ I).
+  - intros b H. destruct (i_act_owner _ I b H) as [E1 E2]. split; [lia|].
+    destruct (Nat.eqb_spec (b_owner (blds s b)) (nt s)); [lia|auto].
+  - apply (i_act_undone _ I).
+  - intros t0 b H0 H. destruct (Nat.eqb_spec t0 (nt s)) as [E|N]; simpl in H; [congruence|].
+    apply (i_phase _ I t0 b); auto; lia.
+  - intros t0 b H0 H. destruct (Nat.eqb_spec t0 (nt s)) as [E|N]; simpl in H; [congruence|].
+    apply (i_donepc _ I t0 b); auto; lia.
+  - intros b H0 H. destruct (i_undone _ I b H0 H) as [E1 E2]. split; [lia|].
+    destruct (Nat.eqb_spec (b_owner (blds s b)) (nt s)); [lia|auto].
+  - intros t0 b H0 H. destruct (Nat.eqb_spec t0 (nt s)) as [E|N]; simpl in H; [congruence|].
+    apply (i_refs _ I t0 b); auto; lia.
+  - intros t0 H0. destruct (Nat.eqb_spec t0 (nt s)) as [E|N]; simpl.
+    + destruct o; reflexivity.
+    + apply (i_kind _ I t0). lia.
+  - intros H. destruct (i_watcher _ I H) as [E1 E2]. split; [lia|].
+    destruct (Nat.eqb_spec (wtid s) (nt s)); [lia|auto].
+  - intros H H1. pose proof (i_wlive _ I H H1) as E. destruct (i_watcher _ I H) as [E1 E2].
+    destruct (Nat.eqb_spec (wtid s) (nt s)); [lia|auto].
+  - intros t0 H0 H. destruct (Nat.eqb_spec t0 (nt s)) as [E|N]; simpl in H; [discriminate|].
+    apply (i_wuniq _ I); auto; lia.
+Qed.
+
+(* Watch succeeds: the watcher goroutine and the first-build goroutine are started *)
+Lemma sinv_watch : forall s t dsp,
+  SInv s -> t < nt s -> t_pc (thr s t) = PWaStart -> watcher s = false ->
+  SInv (set_pc (mkState dsp (active s) (recent s) true (nt s) (stopFlag s) (wexited s)
+                        (edits s) (nb s) (blds s) (S (S (nt s)))
+                        (upd (upd (thr s) (nt s) (mkThread KWatcher 0 PWlCheck)) (S (nt s)) (mkThread KWatchFirst 0 PWfStart))
+                        (ncalls s)) t (PRet RvUnit)).
+Proof.
+  intros s t dsp I Ht Hpc Hw.
+  assert (Kt : t_kind (thr s t) <> KWatcher).
+  { intros E. destruct (i_wuniq _ I t Ht E). congruence. }
+  constructor; upd_simpl.
+  all: destruct (Nat.eqb_spec t (S (nt s))) as [?|Nt1]; [lia|]; destruct (Nat.eqb_spec t (nt s)) as [?|Nt2]; [lia|].
+  - apply (i_act_nb _ I).
+  - intros b H. destruct (i_act_owner _ I b H) as [E1 E2]. split; [lia|].
+    destruct (Nat.eqb_spec (b_owner (blds s b)) t) as [E|N]; simpl.
+    + rewrite E, Hpc in E2. discriminate.
+    + destruct (Nat.eqb_spec (b_owner (blds s b)) (S (nt s))); [lia|].
+      destruct (Nat.eqb_spec (b_owner (blds s b)) (nt s)); [lia|auto].
+  - apply (i_act_undone _ I).
+  - intros t0 b H0 H. destruct (Nat.eqb_spec t0 t) as [E|N]; simpl in H; [discriminate|].
+    destruct (Nat.eqb_spec t0 (S (nt s))) as [E|N1]; simpl in H; [discriminate|].
+    destruct (Nat.eqb_spec t0 (nt s)) as [E|N2]; simpl in H; [discriminate|].
+    apply (i_phase _ I t0 b); auto; lia.
+  - intros t0 b H0 H. destruct (Nat.eqb_spec t0 t) as [E|N]; simpl in H; [discriminate|].
+    destruct (Nat.eqb_spec t0 (S (nt s))) as [E|N1]; simpl in H; [discriminate|].
+    destruct (Nat.eqb_spec t0 (nt s)) as [E|N2]; simpl in H; [discriminate|].
+    apply (i_donepc _ I t0 b); auto; lia.
+  - intros b H0 H. destruct (i_undone _ I b H0 H) as [E1 E2]. split; [lia|].
+    destruct (Nat.eqb_spec (b_owner (blds s b)) t) as [E|N]; simpl.
+    + rewrite E, Hpc in E2. simpl in E2. destruct E2; discriminate.
+    + destruct (Nat.eqb_spec (b_owner (blds s b)) (S (nt s))); [lia|].
+      destruct (Nat.eqb_spec (b_owner (blds s b)) (nt s)); [lia|auto].
+  - intros t0 b H0 H. destruct (Nat.eqb_spec t0 t) as [E|N]; simpl in H; [discriminate|].
+    destruct (Nat.eqb_spec t0 (S (nt s))) as [E|N1]; simpl in H; [discriminate|].
+    destruct (Nat.eqb_spec t0 (nt s)) as [E|N2]; simpl in H; [discriminate|].
+    apply (i_refs _ I t0 b); auto; lia.
+  - intros t0 H0. destruct (Nat.eqb_spec t0 t) as [E|N]; simpl.
+    + pose proof (i_kind _ I t Ht) as K. rewrite Hpc in K.
+      destruct (t_kind (thr s t)) as [[]| |]; simpl in *; auto.
+    + destruct (Nat.eqb_spec t0 (S (nt s))) as [E|N1]; simpl; [reflexivity|].
+      destruct (Nat.eqb_spec t0 (nt s)) as [E|N2]; simpl; [reflexivity|].
+      apply (i_kind _ I t0). lia.
+  - intros _. split; [lia|].
+    destruct (Nat.eqb_spec (nt s) t) as [E|N]; [lia|].
+    destruct (Nat.eqb_spec (nt s) (S (nt s))); [lia|]. rewrite Nat.eqb_refl. reflexivity.
+  - intros _ _.
+    destruct (Nat.eqb_spec (nt s) t) as [E|N]; [lia|].
+    destruct (Nat.eqb_spec (nt s) (S (nt s))); [lia|]. rewrite Nat.eqb_refl. reflexivity.
+  - intros t0 H0 H. split; auto.
+    destruct (Nat.eqb_spec t0 t) as [E|N]; simpl in H; [subst; congruence|].
+    destruct (Nat.eqb_spec t0 (S (nt s))) as [E|N1]; simpl in H; [discriminate|].
+    destruct (Nat.eqb_spec t0 (nt s)) as [E|N2]; simpl in H; [auto|].
+    assert (t0 < nt s) by lia. destruct (i_wuniq _ I t0 H1 H). congruence.
+Qed.
+
+Ltac kind_contra I t Ht Hpc :=
+  let K := fresh "K" in
+  pose proof (i_kind _ I t Ht) as K; rewrite Hpc in K;
+  destruct (t_kind (thr _ t)) as [[]| |] eqn:?; simpl in K; try discriminate.
+
+Ltac side :=
+  upd_simpl; intros; eqb_cases; simpl in *; try reflexivity; try congruence; try lia; auto.
+
+Ltac kind_tac I :=
+  match goal with
+  | Hl : ?t0 < nt ?s0, Hp : t_pc (thr ?s0 ?t0) = _ |- _ =>
+      let K := fresh "K" in pose proof (i_kind _ I t0 Hl) as K; rewrite Hp in K;
+      try match goal with Hk : t_kind (thr s0 t0) = _ |- _ => rewrite Hk in * end;
+      try (destruct (t_kind (thr s0 t0)) as [[]| |]);
+      try match goal with o : op |- _ => destruct o end;
+      simpl in *; try discriminate; try congruence; auto
+  end.
+
 Lemma sinv_step : forall s a s' l, SInv s -> exec s a = Some (s', l) -> SInv s'.
 Proof.
   intros s a s' l I H.
   step_cases H.
-  all: idtac.
-Abort.
+  1: solve [apply sinv_call; auto].
+  1: solve [destruct I; constructor; simpl; auto].
+  1: { (* tick *)
+    destruct (i_watcher _ I Hw) as [W1 W2].
+    eapply sinv_frame with (t := wtid s); eauto; try solve [side].
+    all: upd_simpl; rewrite ?Nat.eqb_refl; simpl; rewrite ?Hpc, ?W2; destruct d; simpl; intros; try discriminate; auto. }
+  all: try (unfold finish_rebuild, ret in *).
+  all: repeat match goal with
+              | H1 : (match ?k with _ => _ end) = (_, _) |- _ => destruct k eqn:?
+              end.
+  all: repeat match goal with
+              | H1 : (_, _) = (_, _) |- _ => inversion H1; subst; clear H1
+              end.
+  all: try solve [apply sinv_alloc; auto].
+  all: try solve [eapply sinv_publish; eauto].
+  all: try solve [apply sinv_watch; auto].
+  all: repeat match goal with Hk : t_kind (thr (set_bld _ _ _) _) = _ |- _ => simpl in Hk end.
+  all: try solve [eapply sinv_done; [exact I | eassumption | eassumption | ..]; simpl; try reflexivity; try congruence; kind_tac I].
+  all: match goal with Hl : ?t0 < nt ?s0 |- _ => eapply sinv_frame with (t := t0); [exact I | exact Hl | ..] end; try solve [side].
+  all: upd_simpl; rewrite ?Nat.eqb_refl; simpl; rewrite ?Hpc; simpl; try reflexivity.
+  all: try solve [kind_tac I].
+  all: try solve [intros b0 Hb0; inversion Hb0; subst;
+                  first [ match goal with Ha : active _ = Some _ |- _ => pose proof (i_act_nb _ I _ Ha); lia end
+                        | match goal with Hl : ?t0 < nt ?s0, Hp : t_pc (thr ?s0 ?t0) = _ |- _ =>
+                            let R := fresh "R" in pose proof (i_refs _ I t0 b0 Hl) as R; rewrite Hp in R; simpl in R; auto end ]].
+  all: try solve [intros Hw Hx; split; [assumption|]; intros Et;
+                  let Wk := fresh "Wk" in destruct (i_watcher _ I Hw) as [_ Wk]; rewrite <- Et in Wk;
+                  try congruence; kind_tac I].
+  all: try solve [intros b0 Hb0; destruct (active s) eqn:Ha; inversion Hb0; subst; pose proof (i_act_nb _ I _ Ha); lia].
+Qed.
+
+Lemma sinv_run : forall s tr s', run s tr s' -> SInv s -> SInv s'.
+Proof.
+  intros s tr s' R. induction R as [s0 | s0 tr s1 a s2 l R IH E]; intros I; auto.
+  apply (sinv_step s1 a s2 l); auto.
+Qed.
+
+Lemma sinv_reachable : forall s, reachable s -> SInv s.
+Proof. intros s [tr R]. eapply sinv_run; eauto. apply sinv_init. Qed.
+
+(* ---- at most one build runs at a time ---- *)
+Lemma one_build_running : forall s, reachable s ->
+  forall t1 t2 b1 b2, t1 < nt s -> t2 < nt s ->
+    phase_of (t_pc (thr s t1)) = Some b1 -> phase_of (t_pc (thr s t2)) = Some b2 ->
+    t1 = t2 /\ b1 = b2.
+Proof.
+  intros s R t1 t2 b1 b2 H1 H2 P1 P2. pose proof (sinv_reachable _ R) as I.
+  destruct (i_phase _ I t1 b1 H1 P1) as [A1 O1].
+  destruct (i_phase _ I t2 b2 H2 P2) as [A2 O2].
+  rewrite A1 in A2. inversion A2; subst. split; auto.
+Qed.
+
+(* ---- progress (deadlock freedom) ---- *)
+Lemma some_pair_ex : forall (x : state * label), exists s' l, Some x = Some (s', l).
+Proof. intros [a b]. eauto. Qed.
+
+Definition guard_free (p : pc) : bool :=
+  match p with
+  | PRbJoin _ | PCaWait _ | PDiWait _ | PWfWait _ | PDiStopWait _ | PWlSleep | PRet _ => false
+  | _ => true
+  end.
+
+Lemma enabled_nonguard : forall s t, t < nt s -> guard_free (t_pc (thr s t)) = true ->
+  exists s' l, exec s (AStep t) = Some (s', l).
+Proof.
+  intros s t Ht G. simpl. unfold exec_step.
+  apply Nat.ltb_lt in Ht. rewrite Ht. simpl.
+  destruct (t_pc (thr s t)); simpl in *; try discriminate;
+    repeat match goal with
+           | |- context [if ?c then _ else _] => destruct c
+           | |- context [match ?c with _ => _ end] => destruct c
+           end; eauto using some_pair_ex.
+Qed.
+
+Lemma owner_enabled : forall s b, SInv s -> b < nb s -> b_done (blds s b) = false ->
+  exists s' l, exec s (AStep (b_owner (blds s b))) = Some (s', l).
+Proof.
+  intros s b I Hb Hd. destruct (i_undone _ I b Hb Hd) as [Ho [P|P]];
+    apply enabled_nonguard; auto;
+    destruct (t_pc (thr s (b_owner (blds s b)))); simpl in *; try discriminate; auto.
+Qed.
+
+Lemma wait_enabled : forall s t b, SInv s -> t < nt s -> ref_of (t_pc (thr s t)) = Some b ->
+  (b_done (blds s b) = true -> exists s' l, exec s (AStep t) = Some (s', l)) ->
+  exists a s' l, system a = true /\ exec s a = Some (s', l).
+Proof.
+  intros s t b I Ht Hr Hen.
+  destruct (b_done (blds s b)) eqn:Hd.
+  - destruct (Hen eq_refl) as [s' [l E]]. exists (AStep t), s', l. auto.
+  - pose proof (i_refs _ I t b Ht Hr) as Hb.
+    destruct (owner_enabled s b I Hb Hd) as [s' [l E]]. exists (AStep (b_owner (blds s b))), s', l. auto.
+Qed.
+
+Lemma step_if_done : forall s t, t < nt s ->
+  forall b, (t_pc (thr s t) = PRbJoin b \/ t_pc (thr s t) = PCaWait b \/ t_pc (thr s t) = PDiWait b \/ t_pc (thr s t) = PWfWait b) ->
+  b_done (blds s b) = true -> exists s' l, exec s (AStep t) = Some (s', l).
+Proof.
+  intros s t Ht b Hp Hd. simpl. unfold exec_step. apply Nat.ltb_lt in Ht. rewrite Ht. simpl.
+  destruct Hp as [E|[E|[E|E]]]; rewrite E; rewrite Hd; eauto using some_pair_ex.
+Qed.
+
+Lemma thread_progress : forall s t, SInv s -> t < nt s -> is_ret (t_pc (thr s t)) = false ->
+  (t_pc (thr s t) <> PWlSleep) ->
+  (forall ob, t_pc (thr s t) <> PDiStopWait ob) ->
+  exists a s' l, system a = true /\ exec s a = Some (s', l).
+Proof.
+  intros s t I Ht Hr Hs Hd.
+  destruct (guard_free (t_pc (thr s t))) eqn:G.
+  - destruct (enabled_nonguard s t Ht G) as [s' [l E]]. exists (AStep t), s', l. auto.
+  - destruct (t_pc (thr s t)) eqn:Hpc; simpl in *; try discriminate; try congruence.
+    + eapply wait_enabled with (t := t) (b := b); eauto. rewrite Hpc; reflexivity.
+      intros. eapply step_if_done; eauto.
+    + eapply wait_enabled with (t := t) (b := b); eauto. rewrite Hpc; reflexivity.
+      intros. eapply step_if_done; eauto.
+    + eapply wait_enabled with (t := t) (b := b); eauto. rewrite Hpc; reflexivity.
+      intros. eapply step_if_done; eauto.
+    + eapply wait_enabled with (t := t) (b := b); eauto. rewrite Hpc; reflexivity.
+      intros. eapply step_if_done; eauto 6.
+Qed.
+
+Lemma progress_inv : forall s, SInv s ->
+  forall t, t < nt s -> is_ret (t_pc (thr s t)) = false ->
+  exists a s' l, system a = true /\ exec s a = Some (s', l).
+Proof.
+  intros s I t Ht Hr.
+  destruct (t_pc (thr s t)) eqn:Hpc;
+    try (apply (thread_progress s t I Ht); rewrite ?Hpc; auto; intros; congruence).
+  - (* PDiStopWait: watcher.stop() waits for the watcher goroutine *)
+    destruct (watcher s && negb (wexited s)) eqn:W.
+    + apply andb_true_iff in W as [W1 W2]. apply negb_true_iff in W2.
+      destruct (i_watcher _ I W1) as [Hw Kw].
+      pose proof (i_wlive _ I W1 W2) as Lw.
+      destruct (t_pc (thr s (wtid s))) eqn:Hwp;
+        try (apply (thread_progress s (wtid s) I Hw); rewrite ?Hwp; auto; intros; congruence).
+      * pose proof (i_kind _ I _ Hw) as K. rewrite Kw, Hwp in K. discriminate.
+      * exists (ATick false). simpl. rewrite W1, Hwp. eauto.
+    + exists (AStep t). simpl. unfold exec_step. apply Nat.ltb_lt in Ht. rewrite Ht. simpl.
+      rewrite Hpc, W. destruct ob; [eauto|]. destruct (ret s t RvUnit) as [s1 l1]. eauto.
+  - (* PWlSleep: time passes *)
+    pose proof (i_kind _ I t Ht) as K. rewrite Hpc in K.
+    destruct (t_kind (thr s t)) as [[]| |] eqn:Kt; simpl in K; try discriminate.
+    destruct (i_wuniq _ I t Ht Kt) as [W E]. subst t.
+    exists (ATick false). simpl. rewrite W, Hpc. eauto.
+Qed.
